@@ -839,3 +839,205 @@ Section Goals.
     (holds false I0 g = true <-> exists d, In d ds /\ all_hold false I0 d = true).
   Proof. simpl. intros H. rewrite <- H, existsb_exists. tauto. Qed.
 End Goals.
+
+(* ================================================================== 6. variants dropped for conflicting effects *)
+Definition relevant (e : effect) : bool := is_uncond e && negb (e_isbool e).
+
+Lemma lexpr_eqb_eq (l l' : list expr) : list_expr_eqb l l' = true <-> l = l'.
+Proof. apply list_expr_eqb_eq. apply Forall_forall. intros x _. apply expr_eqb_eq. Qed.
+
+Lemma tgt_eqb_eq x y : tgt_eqb x y = true <-> x = y.
+Proof.
+  destruct x as [f a], y as [g b]. unfold tgt_eqb. simpl. rewrite andb_true_iff, N.eqb_eq, lexpr_eqb_eq.
+  split; [intros [H1 H2]; congruence | intros H; inversion H; auto].
+Qed.
+
+(* what UPConflictingEffectsException means: two unconditional effects on a non-Boolean fluent with the same
+   (syntactic) target: two assignments of different value expressions, or an assignment and an increase/decrease *)
+Definition conflict_pair (e1 e2 : effect) : Prop :=
+  relevant e1 = true /\ relevant e2 = true /\ e_tgt e1 = e_tgt e2 /\
+  ((is_kassign e1 = true /\ is_kassign e2 = true /\ same_value (e_val e1) (e_val e2) = false) \/
+   (is_kassign e1 = true /\ is_kassign e2 = false) \/ (is_kassign e1 = false /\ is_kassign e2 = true)).
+
+Definition fa_ok (fa : list (tgt * expr)) (seen : list effect) : Prop :=
+  forall t v, fa_lookup t fa = Some v ->
+    exists e1, In e1 seen /\ relevant e1 = true /\ is_kassign e1 = true /\ e_tgt e1 = t /\ e_val e1 = v.
+Definition fid_ok (fid : list tgt) (seen : list effect) : Prop :=
+  forall t, existsb (tgt_eqb t) fid = true ->
+    exists e1, In e1 seen /\ relevant e1 = true /\ is_kassign e1 = false /\ e_tgt e1 = t.
+
+Lemma fa_ok_mono fa seen e : fa_ok fa seen -> fa_ok fa (seen ++ [e]).
+Proof. intros H t v Hl. destruct (H t v Hl) as [e1 [Hin Hr]]. exists e1. split; [apply in_or_app; auto | auto]. Qed.
+Lemma fid_ok_mono fid seen e : fid_ok fid seen -> fid_ok fid (seen ++ [e]).
+Proof. intros H t Hl. destruct (H t Hl) as [e1 [Hin Hr]]. exists e1. split; [apply in_or_app; auto | auto]. Qed.
+
+Lemma add_effs_conflict es : forall fa fid seen, fa_ok fa seen -> fid_ok fid seen ->
+  add_effs_ok fa fid es = false ->
+  exists e1 e2, In e1 (seen ++ es) /\ In e2 es /\ conflict_pair e1 e2.
+Proof.
+  induction es as [|e es IH]; intros fa fid seen Hfa Hfid H; [discriminate|].
+  assert (Hrec : forall fa' fid', fa_ok fa' (seen ++ [e]) -> fid_ok fid' (seen ++ [e]) ->
+            add_effs_ok fa' fid' es = false ->
+            exists e1 e2, In e1 (seen ++ e :: es) /\ In e2 (e :: es) /\ conflict_pair e1 e2).
+  { intros fa' fid' H1 H2 H3. destruct (IH fa' fid' (seen ++ [e]) H1 H2 H3) as [e1 [e2 [Hi1 [Hi2 Hc]]]].
+    exists e1, e2. rewrite <- app_assoc in Hi1. simpl in Hi1. split; auto. split; [right; auto | auto]. }
+  simpl in H. fold (relevant e) in H.
+  destruct (relevant e) eqn:Hrel.
+  - destruct (is_kassign e) eqn:Hk.
+    + destruct (existsb (tgt_eqb (e_tgt e)) fid) eqn:Hfid'.
+      * destruct (Hfid _ Hfid') as [e1 [Hin [Hr [Hk1 Ht]]]].
+        exists e1, e. split; [apply in_or_app; auto|]. split; [left; auto|].
+        repeat split; auto.
+      * destruct (fa_lookup (e_tgt e) fa) as [v|] eqn:Hl.
+        -- destruct (same_value v (e_val e)) eqn:Hsv.
+           ++ apply (Hrec fa fid); auto using fa_ok_mono, fid_ok_mono.
+           ++ destruct (Hfa _ _ Hl) as [e1 [Hin [Hr [Hk1 [Ht Hv]]]]].
+              exists e1, e. split; [apply in_or_app; auto|]. split; [left; auto|].
+              repeat split; auto. left. subst v. auto.
+        -- apply (Hrec ((e_tgt e, e_val e) :: fa) fid); auto using fid_ok_mono.
+           intros t v Hl'. simpl in Hl'. destruct (tgt_eqb t (e_tgt e)) eqn:Ht.
+           ++ inversion Hl'; subst. apply tgt_eqb_eq in Ht. exists e. split; [apply in_or_app; right; left; auto|].
+              repeat split; auto.
+           ++ exact (fa_ok_mono fa seen e Hfa t v Hl').
+    + destruct (fa_lookup (e_tgt e) fa) as [v|] eqn:Hl.
+      * destruct (Hfa _ _ Hl) as [e1 [Hin [Hr [Hk1 [Ht Hv]]]]].
+        exists e1, e. split; [apply in_or_app; auto|]. split; [left; auto|]. repeat split; auto.
+      * apply (Hrec fa (e_tgt e :: fid)); auto using fa_ok_mono.
+        intros t Hl'. simpl in Hl'. apply orb_true_iff in Hl'. destruct Hl' as [Ht|Ht].
+        -- apply tgt_eqb_eq in Ht. exists e. split; [apply in_or_app; right; left; auto|]. repeat split; auto.
+        -- exact (fid_ok_mono fid seen e Hfid t Ht).
+  - apply (Hrec fa fid); auto using fa_ok_mono, fid_ok_mono.
+Qed.
+
+Lemma is_true_eq c : is_true c = true -> c = EBool true.
+Proof. destruct c; try discriminate. destruct b; [reflexivity | discriminate]. Qed.
+
+Section Conflict.
+  Variable P : problem.
+  Variable s : state.
+  Variable a : action.
+  Variable args : list value.
+  Let I := mk_interp P s (zip_params (a_params a) args).
+
+  Lemma piece_uncond_novars e : is_uncond e = true -> e_vars e = [] -> piece I e = [fire I e].
+  Proof.
+    intros Hu Hv. unfold piece. rewrite Hv. simpl. f_equal.
+    rewrite <- (set_cond_id e) at 1. apply eval_effect_true. apply is_true_eq in Hu. rewrite Hu. reflexivity.
+  Qed.
+
+  Lemma fire_in e : In e (a_effs a) -> is_uncond e = true -> e_vars e = [] -> In (fire I e) (eres_of I (a_effs a)).
+  Proof.
+    intros Hin Hu Hv. unfold eres_of. apply in_flat_map. exists e. split; auto.
+    change (In (fire I e) (piece I e)). rewrite piece_uncond_novars; auto. left; auto.
+  Qed.
+
+  (* two effects that conflict for check_conflicting_effects make the action inapplicable, provided: they have no
+     forall variables, the target is not a Boolean fluent of the problem, and (two assignments) their values differ
+     in the state whenever they differ as expressions *)
+  Theorem conflict_inapplicable e1 e2 :
+    In e1 (a_effs a) -> In e2 (a_effs a) -> conflict_pair e1 e2 ->
+    e_vars e1 = [] -> e_vars e2 = [] -> is_bool_fluent P (e_fl e1) = false ->
+    (is_kassign e1 = true -> is_kassign e2 = true ->
+     forall v1 v2, eval false (e_val e1) I = Some v1 -> eval false (e_val e2) I = Some v2 -> v1 <> v2) ->
+    spec_step false P s a args = None.
+  Proof.
+    intros Hin1 Hin2 [Hr1 [Hr2 [Htgt Hkinds]]] Hv1 Hv2 Hnb Hdiff.
+    rewrite spec_step_unfold. cbv zeta. fold I. destruct (negb (all_hold false I (a_pre a))); [reflexivity|].
+    unfold relevant in Hr1, Hr2. apply andb_true_iff in Hr1. apply andb_true_iff in Hr2.
+    destruct Hr1 as [Hu1 _], Hr2 as [Hu2 _].
+    pose proof (fire_in e1 Hin1 Hu1 Hv1) as F1. pose proof (fire_in e2 Hin2 Hu2 Hv2) as F2.
+    unfold finish_step. rewrite collect_res_spec.
+    destruct (has_err (eres_of I (a_effs a))) eqn:Herr; [reflexivity|].
+    assert (Hne : forall e, In (fire I e) (eres_of I (a_effs a)) -> fire I e <> EErr).
+    { intros e Hi He. rewrite He in Hi. apply has_err_in in Hi. congruence. }
+    specialize (Hne e1 F1) as N1. specialize (Hne e2 F2) as N2.
+    unfold fire in *. unfold e_tgt in Htgt. inversion Htgt as [[Hfl Hargs]].
+    rewrite <- Hargs, <- Hfl in *.
+    destruct (evals_l false I (e_args e1)) as [vs|] eqn:Eargs; [|congruence].
+    destruct (eval false (e_val e1) I) as [v1|] eqn:E1; [|congruence].
+    destruct (eval false (e_val e2) I) as [v2|] eqn:E2; [|congruence].
+    apply in_acts_of in F1. apply in_acts_of in F2.
+    set (acts := acts_of (eres_of I (a_effs a))) in *.
+    set (k := (e_fl e1, vs)) in *.
+    set (x1 := {| ae_key := k; ae_kind := e_kind e1; ae_val := v1 |}) in *.
+    set (x2 := {| ae_key := k; ae_kind := e_kind e2; ae_val := v2 |}) in *.
+    assert (Hfail : spec_fluent P s acts k = CFail).
+    { unfold spec_fluent. simpl fst. rewrite Hnb.
+      assert (HA : forall x, In x acts -> ae_key x = k -> is_assign x = true -> In (ae_val x) (avals k acts)).
+      { intros x Hx Hk Ha. apply in_avals. exists x. rewrite Hk, gfl_eqb_refl. auto. }
+      assert (HD : forall x, In x acts -> ae_key x = k -> is_assign x = false -> deltas k acts <> []).
+      { intros x Hx Hk Ha Hnil. assert (Hi : In (delta_of x) (deltas k acts)).
+        { unfold deltas. apply in_map. apply filter_In. split; auto. rewrite Hk, gfl_eqb_refl, Ha. auto. }
+        rewrite Hnil in Hi. destruct Hi. }
+      destruct Hkinds as [[Hk1 [Hk2 _]] | [[Hk1 Hk2] | [Hk1 Hk2]]].
+      - (* two assignments of different values *)
+        assert (Hneq : v1 <> v2) by (apply Hdiff; auto).
+        pose proof (HA x1 F1 eq_refl Hk1) as A1. pose proof (HA x2 F2 eq_refl Hk2) as A2. simpl in A1, A2.
+        destruct (avals k acts) as [|a0 rest] eqn:EA; [destruct A1|].
+        destruct (deltas k acts) as [|d0 D]; [|reflexivity].
+        simpl. destruct (forallb (value_eqb a0) rest) eqn:Eall; [|reflexivity].
+        exfalso. apply Hneq.
+        assert (Hall : forall x, In x (a0 :: rest) -> x = a0).
+        { intros x [Hx|Hx]; auto. rewrite forallb_forall in Eall. apply Eall in Hx. apply value_eqb_eq in Hx. auto. }
+        rewrite (Hall v1 A1), (Hall v2 A2). reflexivity.
+      - pose proof (HA x1 F1 eq_refl Hk1) as A1. pose proof (HD x2 F2 eq_refl Hk2) as D2.
+        destruct (avals k acts) as [|a0 rest]; [destruct A1|]. destruct (deltas k acts); [congruence|reflexivity].
+      - pose proof (HA x2 F2 eq_refl Hk2) as A2. pose proof (HD x1 F1 eq_refl Hk1) as D1.
+        destruct (avals k acts) as [|a0 rest]; [destruct A2|]. destruct (deltas k acts); [congruence|reflexivity]. }
+    assert (Hok : spec_effects_ok P s acts = false).
+    { unfold spec_effects_ok. destruct (forallb _ acts) eqn:E; auto.
+      rewrite forallb_forall in E. specialize (E x1 F1). simpl in E. rewrite Hfail in E. discriminate. }
+    rewrite Hok. reflexivity.
+  Qed.
+End Conflict.
+
+(* the selected variant dropped for a conflict: the original action is not applicable there (so nothing is lost),
+   under the hypotheses of [conflict_inapplicable] for the effects of that variant *)
+Theorem ce_conflict_drop_sound P s a args :
+  Forall (cond_ok P s a args) (cond_effs (a_effs a)) ->
+  let v := ce_variant a (the_sel P s a args) in
+  let I := mk_interp P s (zip_params (a_params a) args) in
+  add_effs_ok [] [] (a_effs v) = false ->
+  (forall e, In e (a_effs v) -> relevant e = true -> e_vars e = [] /\ is_bool_fluent P (e_fl e) = false) ->
+  (forall e1 e2, In e1 (a_effs v) -> In e2 (a_effs v) -> same_value (e_val e1) (e_val e2) = false ->
+     forall v1 v2, eval false (e_val e1) I = Some v1 -> eval false (e_val e2) I = Some v2 -> v1 <> v2) ->
+  applicable P s a args = false.
+Proof.
+  intros Hok v I Hconf Hrel Hdiff.
+  rewrite <- (ce_the_variant_applicable P s a args Hok). fold v.
+  destruct (add_effs_conflict (a_effs v) [] [] []) as [e1 [e2 [Hi1 [Hi2 Hc]]]]; auto.
+  { intros t x H. discriminate. }
+  { intros t H. discriminate. }
+  simpl in Hi1. pose proof Hc as [Hr1 [Hr2 [_ Hk]]].
+  destruct (Hrel e1 Hi1 Hr1) as [Hv1 Hb1]. destruct (Hrel e2 Hi2 Hr2) as [Hv2 _].
+  unfold applicable. rewrite (conflict_inapplicable P s v args e1 e2); auto.
+  intros Hk1 Hk2. apply Hdiff; auto.
+  destruct Hk as [[_ [_ H]] | [[_ H] | [H _]]]; auto; congruence.
+Qed.
+
+(* the same for a variant of the disjunctive splitting left out after UPConflictingEffectsException (a split effect
+   whose condition simplified to TRUE): wherever its disjunct holds the original action is not applicable *)
+Theorem dnf_conflict_drop_sound cdnf P s a args d :
+  Forall (dnf_effect_ok cdnf P s a args) (a_effs a) ->
+  let v := dnf_variant cdnf a d in
+  let I := mk_interp P s (zip_params (a_params a) args) in
+  add_effs_ok [] [] (a_effs v) = false ->
+  (forall e, In e (a_effs v) -> relevant e = true -> e_vars e = [] /\ is_bool_fluent P (e_fl e) = false) ->
+  (forall e1 e2, In e1 (a_effs v) -> In e2 (a_effs v) -> same_value (e_val e1) (e_val e2) = false ->
+     forall v1 v2, eval false (e_val e1) I = Some v1 -> eval false (e_val e2) I = Some v2 -> v1 <> v2) ->
+  all_hold false I d = true -> (all_hold false I d = true -> all_hold false I (a_pre a) = true) ->
+  applicable P s a args = false.
+Proof.
+  intros Hok v I Hconf Hrel Hdiff Hd Hpre.
+  destruct (add_effs_conflict (a_effs v) [] [] []) as [e1 [e2 [Hi1 [Hi2 Hc]]]]; auto.
+  { intros t x H. discriminate. }
+  { intros t H. discriminate. }
+  simpl in Hi1. pose proof Hc as [Hr1 [Hr2 [_ Hk]]].
+  destruct (Hrel e1 Hi1 Hr1) as [Hv1 Hb1]. destruct (Hrel e2 Hi2 Hr2) as [Hv2 _].
+  assert (Hv : applicable P s v args = false).
+  { unfold applicable. rewrite (conflict_inapplicable P s v args e1 e2); auto.
+    intros Hk1 Hk2. apply Hdiff; auto.
+    destruct Hk as [[_ [_ H]] | [[_ H] | [H _]]]; auto; congruence. }
+  unfold v in Hv. rewrite (dnf_variant_applicable cdnf P s a args Hok d) in Hv. fold I in Hv. rewrite Hd in Hv.
+  simpl in Hv. unfold applicable. rewrite spec_step_unfold. cbv zeta. fold I. rewrite (Hpre Hd). simpl. exact Hv.
+Qed.
